@@ -36,6 +36,9 @@ func init() {
 }
 
 func runC16(c *eng.Ctx) {
+	histogramNumbersAreNumbers(c)
+	refusedFlatRowIsConsumed(c)
+	onlyStorableFieldTypesAccepted(c)
 	p := c.P
 	familyGroupContainsItsFirstRow(c)
 	tagsHashIsStateless(c)
